@@ -4,13 +4,57 @@ import ShellOp.Model.Queue
 namespace ShellOp.Drv.C05
 open ShellOp ShellOp.Util ShellOp.Queue
 
-structure St where
+/-- One queue of the case: the code-shaped model, the ordinary list, and the ordinary list before
+the last operation (for the `iter` oracle). -/
+structure QSt where
   m : State := {}
   s : Spec.SState := {}
-  prev : List Id := []      -- the ordinary list before the last operation (for the `iter` oracle)
+  prev : List Id := []
 
+/-- A case may hold several live queues (`sel k` switches the one the op lines address). Each has
+its own ordinary list: the specification of a set of queues is a family of independent lists. -/
+structure St extends QSt where
+  idx : Nat := 0
+  others : List (Nat × QSt) := []
+
+def St.queue (st : St) (k : Nat) : QSt :=
+  if k == st.idx then st.toQSt else ((st.others.find? (·.1 == k)).map (·.2)).getD {}
+
+def St.sel (st : St) (k : Nat) : St :=
+  if k == st.idx then st else
+    { toQSt := st.queue k, idx := k,
+      others := (st.idx, st.toQSt) :: st.others.filter (fun p => p.1 != k && p.1 != st.idx) }
+
+/-- Maximal runs of consecutive ascending ids: `(first slot, number of further slots)`. -/
+def runsOf : Items → List (Slot × Nat)
+  | [] => []
+  | x :: xs =>
+    match x, runsOf xs with
+    | some a, (some b, k) :: rest =>
+      if b == a + 1 then (some a, k + 1) :: rest else (some a, 0) :: (some b, k) :: rest
+    | x, r => (x, 0) :: r
+
+/-- Items as text; a run of >= 3 consecutive ascending ids `a..b` (as the harness writes it). -/
 def showItems (q : Items) : String :=
-  if q.isEmpty then "-" else String.intercalate "," (q.map showOptNat)
+  if q.isEmpty then "-" else
+    String.intercalate "," ((runsOf q).map fun
+      | (some a, 0) => toString a
+      | (some a, 1) => toString a ++ "," ++ toString (a + 1)
+      | (some a, k) => toString a ++ ".." ++ toString (a + k)
+      | (none, _) => "nil")
+
+/-- `a..b` → a, a+1, …, b. -/
+def expandTok (x : String) : Option (List Nat) :=
+  match x.splitOn ".." with
+  | [a] => a.toNat?.map ([·])
+  | [a, b] => do
+    let a ← a.toNat?
+    let b ← b.toNat?
+    if a ≤ b then some ((List.range (b - a + 1)).map (· + a)) else none
+  | _ => none
+
+def natListR? (s : String) : Option (List Nat) :=
+  (strList s).mapM expandTok |>.map List.flatten
 
 def obs (st : State) (ret : String) : String :=
   s!"items={showItems st.items} len={st.items.length} first={showOptNat (getFirst st.items)} last={showOptNat (getLast st.items)} cur={showOptNat st.cur} ret={ret}"
@@ -28,13 +72,13 @@ def parseOp (toks : List String) : Option QOp :=
   | ["remove", i] => i.toNat?.map .remove
   | ["removeFirst"] => some .removeFirst
   | ["removeLast"] => some .removeLast
-  | ["filter", k] => (natList? k).map .filter
+  | ["filter", k] => (natListR? k).map .filter
   | ["pick"] => some .pick
   | "result" :: st :: rest => do
     let st ← status? st
-    let h ← natList? ((kv? "h" rest).getD "-")
-    let a ← natList? ((kv? "a" rest).getD "-")
-    let t ← natList? ((kv? "t" rest).getD "-")
+    let h ← natListR? ((kv? "h" rest).getD "-")
+    let a ← natListR? ((kv? "a" rest).getD "-")
+    let t ← natListR? ((kv? "t" rest).getD "-")
     some (.result st h a t)
   | _ => none
 
@@ -49,7 +93,8 @@ def retOf (st : State) : QOp → String
   | _ => "-"
 
 def parseSlots (s : String) : Option (List (Option Nat)) :=
-  (strList s).mapM (fun x => if x == "nil" then some none else x.toNat?.map some)
+  (strList s).mapM (fun x => if x == "nil" then some [none] else (expandTok x).map (·.map some))
+    |>.map List.flatten
 
 def step (st : St) (toks : List String) : St × String :=
   match toks with
@@ -67,7 +112,7 @@ def step (st : St) (toks : List String) : St × String :=
       let ret := retOf st.m op
       let m' := Queue.step st.m op
       let blocked := if k < before.length then 1 else 0
-      ({ m := m', s := Spec.step st.s op, prev := st.s.items },
+      ({ st with m := m', s := Spec.step st.s op, prev := st.s.items },
         s!"seen={showItems before} blocked={blocked} " ++ obs m' ret)
     | _, _ => (st, "bad-op")
   | "oracle" :: "dump" :: rest =>
@@ -90,22 +135,32 @@ def step (st : St) (toks : List String) : St × String :=
       if seen == st.prev.map some || seen == st.s.items.map some then (st, "true")
       else (st, s!"false before={showItems (st.prev.map some)} after={showItems (st.s.items.map some)}")
     | none => (st, "bad-op")
+  | ["sel", k] =>
+    match k.toNat? with
+    | some k => (st.sel k, "-")
+    | none => (st, "bad-op")
   | "oracle" :: rest =>
     -- the property itself, evaluated on what the implementation showed:
-    -- items = the ordinary list's items (hence no nil slot) and Length() = their number
-    match (kv? "items" rest).bind parseSlots, (kv? "len" rest).bind String.toNat? with
-    | some items, some len =>
-      let want := st.s.items.map some
-      if items == want && len == st.s.items.length then (st, "true")
-      else (st, s!"false want-items={showItems want} want-len={st.s.items.length}")
-    | _, _ => (st, "bad-op")
+    -- items = the ordinary list's items (hence no nil slot) and Length() = their number;
+    -- `q=k`: asked about queue k of the case (default: the selected one) — an operation on one queue
+    -- is not an operation on another one's list
+    let k? : Option Nat := match kv? "q" rest with
+      | none => some st.idx
+      | some k => k.toNat?
+    match k?, (kv? "items" rest).bind parseSlots, (kv? "len" rest).bind String.toNat? with
+    | some k, some items, some len =>
+      let sp := (st.queue k).s.items
+      let want := sp.map some
+      if items == want && len == sp.length then (st, "true")
+      else (st, s!"false want-items={showItems want} want-len={sp.length}")
+    | _, _, _ => (st, "bad-op")
   | _ =>
     match parseOp toks with
     | none => (st, "bad-op")
     | some op =>
       let ret := retOf st.m op
       let m' := Queue.step st.m op
-      ({ m := m', s := Spec.step st.s op, prev := st.s.items }, obs m' ret)
+      ({ st with m := m', s := Spec.step st.s op, prev := st.s.items }, obs m' ret)
 
 def suite : Suite St := { init := {}, step := step }
 
